@@ -18,7 +18,7 @@ EXPLANATION = (
     "Display for public keys prints expose_key(); KeyText stores bytes verbatim. Does not decide the libraries' validators themselves, "
     "equality of behaviour of a re-parsed key, or DER canonicality for v1.")
 ASSUMPTIONS = ["rustc type checking / MIR construction are correct", "library validators validate what they document", "library parse/serialise pairs in keyrules are inverse on inputs of the stated width"]
-FLOORS = {"R08.1": 30, "R08.1b": 26, "R08.2": 24, "R08.3": 4, "R08.5": 6, "R08.6": 4, "R08.7": 12, "R08.8": 4}
+FLOORS = {"R08.1": 30, "R08.1b": 26, "R08.2": 24, "R08.3": 4, "R08.5": 6, "R08.6": 4, "R08.7": 12, "R08.8": 4, "R08.9": 2}
 
 KINDS = c10.KINDS
 VALIDATORS = {   # a call that must be on the path with its success edge taken
@@ -120,7 +120,47 @@ def run_v1_parse_input(ctx):
             probs.append("no DER parse attempt found")
         ctx.add("R08.8", f"C08/v1-parser-input/{kind}", not probs, "; ".join(sorted(set(probs))), site_of(f))
 
+LC_PARSERS = {
+    "lc::VerifyingKey::from_sec1_bytes": ("EC_POINT_oct2point", 2, 3, {"EC_group_p384", "EC_POINT_new", "EC_POINT_oct2point"}),
+    "lc::SigningKey::from_sec1_bytes": ("BN_bin2bn", 0, 1, {"EC_group_p384", "BN_bin2bn", "EC_POINT_new", "EC_POINT_mul", "EC_KEY_new", "EC_KEY_set_group",
+                                                             "EC_KEY_set_private_key", "EC_KEY_set_public_key"}),
+}
+
+def run_lc_parsers(ctx):
+    """R08.9: the aws-lc key parsers (treated as opaque, mutually inverse with the serialisers elsewhere in C08) hand the WHOLE
+    supplied byte string to the library's strict parser — EC_POINT_oct2point / BN_bin2bn with (ptr, len) of the input itself —
+    and build the object with nothing but the listed aws-lc calls (no hand-made decoding of a form byte or a coordinate)."""
+    from origins import Origins
+    import cfg
+    cr = ctx.crates["paseto_v3_aws_lc"]
+    for k, (fn_name, pi, li, allowed) in LC_PARSERS.items():
+        f = cr.fns.get(k)
+        if f is None or not f.get("body"):
+            ctx.add("R08.9", f"C08/lc-parser/{k}", False, "anchor missing")
+            continue
+        og = Origins(f)
+        probs = []
+        ffi = [(bi, b["term"]) for bi, b in enumerate(f["body"]["blocks"]) if not b.get("cleanup") and b["term"]["k"] == "call"
+               and (b["term"].get("callee") or {}).get("crate") == "aws_lc_sys"]
+        names = [t["callee"]["path"].rsplit("::", 1)[-1] for _, t in ffi]
+        extra = sorted(set(names) - allowed)
+        if extra:
+            probs.append(f"builds the key with aws-lc calls outside the reviewed set: {extra}")
+        ps = [t for _, t in ffi if t["callee"]["path"].endswith("::" + fn_name)]
+        if len(ps) != 1:
+            probs.append(f"expected exactly one {fn_name} call, found {len(ps)}")
+        else:
+            t = ps[0]
+            root, via = cfg.root_of(f, t["args"][pi])
+            if root != 1:
+                probs.append(f"{fn_name} does not read from the supplied byte string itself (pointer comes from {'local ' + str(root) if root is not None else via})")
+            lo = repr(og.operand(t["args"][li], 0))
+            if not ("::len" in lo and "('arg', 1," in lo and lo.count("call") == 1):
+                probs.append(f"{fn_name}'s length argument is not the length of the supplied byte string: {lo[:140]}")
+        ctx.add("R08.9", f"C08/lc-parser/{k}", not probs, "; ".join(probs), site_of(f))
+
 def run(ctx):
+    run_lc_parsers(ctx)
     run_v1_parse_input(ctx)
     run_strictness(ctx)
     w = ctx.world
